@@ -850,6 +850,29 @@ def fam_conc(tier: str, rng: random.Random, isasync: bool = False) -> Iterator[d
                             d2 = [Op("call", 2, 1, 1)]
                             d3 = [Op("call", 2, 1, a) for a in calls3]
                         yield Prog(fns, cons, [], cls, obj, [d1, d2, d3], tag="conc-{}-{}".format(variant, "async" if isasync else "thread"))
+    if not isasync:
+        # loop-less worker threads running in copies of the context of an asyncio TASK that has run contracted code
+        for calls3 in ([2], [2, 1], [1, 2]):
+            for variant in ("func", "method"):
+                if variant == "func":
+                    cons = [Con("pre", "default", False, [True, True, False]), Con("post")]
+                    fns = [Fn("func", 0, False, ["chk"], [[1]], [], [2])]
+                    cls, obj = [], []
+                    d1 = [Op("call", 1, 0, 1), Op("spawn", 2, 0, 1), Op("spawn", 3, 0, 1)]
+                    d2 = [Op("call", 1, 0, 1)]
+                    d3 = [Op("call", 1, 0, a) for a in calls3]
+                else:
+                    cons = [Con("inv", "default", False, [False, True, True]),
+                            Con("pre", "default", False, [True, True, False])]
+                    fns = [Fn("init", 1, False, ["init"], out=[RetV(0)] * 3, setst=1),
+                           Fn("method", 1, False, ["inv", "chk"], [[2]])]
+                    cls, obj = [Cls([1])], [{"cls": 1, "st0": 0}]
+                    d1 = [Op("call", 1, 1, 1), Op("spawn", 2, 0, 1), Op("spawn", 3, 0, 1)]
+                    d2 = [Op("call", 2, 1, 1)]
+                    d3 = [Op("call", 2, 1, a) for a in calls3]
+                p = Prog(fns, cons, [], cls, obj, [d1, d2, d3], tag="conc-workers-of-a-task-" + variant)
+                p["parent_is_task"] = True
+                yield p
     if isasync:
         # task 1 is the synchronous main program: it runs contracted sync code and creates the tasks before the event
         # loop starts (main_sync), or it is a task itself; the tasks then call an async function / async method
